@@ -915,11 +915,11 @@ def mpc_si(z, prec, rnd=round_fast):
 # is very small
 
 def mpf_besseljn(n, x, prec, rounding=round_fast):
-    prec += 50
     negate = n < 0 and n & 1
     mag = x[2]+x[3]
     n = abs(n)
-    wp = prec + 20 + n*bitcount(n)
+    # 50 extra bits: cancellation near zeros of the Bessel function
+    wp = prec + 70 + n*bitcount(n)
     if mag < 0:
         wp -= n * mag
     x = to_fixed(x, wp)
